@@ -247,6 +247,11 @@ fn alpha_core(cfg: &Cfg) -> Vec<Op> {
         c(sgr1(4)),
         // a soft reset switches insert mode off like RM 4 does
         c(Decstr),
+        // G2 / G3 and the single / locking shifts of other terminals: not implemented here, so the
+        // next character is translated through G0 / G1 as ever
+        Op::new(Inert("\x1b*0".into())),
+        Op::new(Inert("\x1bN".into())),
+        Op::new(Inert("\u{8f}".into())),
     ]
 }
 
@@ -280,6 +285,51 @@ fn alpha_wide(cfg: &Cfg) -> Vec<Op> {
     super::sweep::layered(super::sweep::wide_placements(cfg), super::sweep::wide_print_funcs(cfg))
 }
 
+/// One logical line of more than 2^22 cells: every row but the last is soft-wrapped, on a
+/// 1024-column screen typed through and on a 65535-column screen reached by CHA + two
+/// characters per row ("marks the row it left" has no upper limit).
+fn very_long_logical_line(ctx: &Ctx, rep: &mut Report) {
+    let mut bad: Option<String> = None;
+    let cases: [(usize, usize); 2] = [(1024, ctx.tier.pick(4100, 17000)), (65535, ctx.tier.pick(70, 300))];
+    for (cols, nrows) in cases {
+        let r = crate::engine::guarded(|| {
+            let mut tc = avt::util::TextCollector::new(build_vt(cols, 2, Some(0)));
+            let mut out: Vec<String> = vec![];
+            if cols == 1024 {
+                let row = "x".repeat(cols);
+                for _ in 0..nrows {
+                    out.extend(tc.feed_str(&row));
+                }
+                out.extend(tc.feed_str("y"));
+            } else {
+                for _ in 0..nrows {
+                    out.extend(tc.feed_str(&format!("\x1b[{}Gab", cols)));
+                }
+            }
+            out.extend(tc.flush());
+            while out.last().map(|s| s.is_empty()).unwrap_or(false) {
+                out.pop();
+            }
+            if out.len() != 1 {
+                return Some(format!("{} columns, {} rows typed through the right edge: {} logical lines instead of 1", cols, nrows, out.len()));
+            }
+            None
+        });
+        match r {
+            Ok(None) => {}
+            Ok(Some(d)) => bad = bad.or(Some(d)),
+            Err(p) => bad = bad.or(Some(format!("{} columns: panic: {}", cols, p))),
+        }
+    }
+    rep.evaluations += 2;
+    rep.traces_validated += 2;
+    rep.parts.push(json!({"part":"very-long-logical-line","cases":2,"violating":bad.is_some() as u32}));
+    println!("part very-long-logical-line: 2 cases, {} violating", bad.is_some() as u32);
+    if let Some(d) = bad {
+        emit_violation(ctx, rep, "C04", json!({"part":"very-long-logical-line","oracle":"reference-terminal","observed":d}));
+    }
+}
+
 pub fn run(ctx: &Ctx) -> Report {
     let mut rep = Report::new();
     let p = parts!(ctx.tier, &SYS);
@@ -289,6 +339,7 @@ pub fn run(ctx: &Ctx) -> Report {
     run_part(ctx, &mut rep, &super::sweep::wide_part("print-realistic-screen-parameter-sweep", &SYS_SWEEP, &alpha_wide, ctx.tier));
     run_part(ctx, &mut rep, &super::sweep::wide_part("print-realistic-screen-sparse-content", &SYS_SPARSE, &alpha_wide, ctx.tier));
     run_part(ctx, &mut rep, &core_part(ctx.tier));
+    very_long_logical_line(ctx, &mut rep);
     run_part(ctx, &mut rep, &super::sweep::mode_part(&SYS_MODES, ctx.tier));
     super::sweep::mode_number_sweep(ctx, &mut rep, &SYS_MODES);
     charset_table(ctx, &mut rep);
@@ -306,6 +357,11 @@ pub fn replay(ctx: &Ctx, v: &Value) -> bool {
     let tier = if v["tier"] == "thorough" { Tier::Thorough } else { Tier::Quick };
     if v["part"] == "print-realistic-screen-sparse-content" {
         return replay_part(ctx, &super::sweep::wide_part("print-realistic-screen-sparse-content", &SYS_SPARSE, &alpha_wide, tier), v);
+    }
+    if v["part"] == "very-long-logical-line" {
+        let mut rep = Report::new();
+        very_long_logical_line(ctx, &mut rep);
+        return rep.violations > 0;
     }
     if v["part"] == "print-core-deep" {
         return replay_part(ctx, &core_part(tier), v);
